@@ -67,7 +67,10 @@ func c46Lookup(name string) e2.RunFn {
 					cancel()
 				})
 			}
-			vals, errs = promise.All(ctx, fns...)
+			v, e := promise.All(ctx, fns...)
+			// judged as the caller sees them at the moment All returns (a task that records its
+			// outcome later writes into the same backing arrays)
+			vals, errs = append([]int(nil), v...), append([]error(nil), e...)
 			for _, f := range finished {
 				if !f {
 					allFinishedAtReturn = false
